@@ -5,6 +5,7 @@ package main
 // NewPacketEngine); only the four leaves (request generator, filler, writer, receiver) are harness fakes.
 
 import (
+	"syscall"
 	"bytes"
 	"context"
 	"encoding/hex"
@@ -224,7 +225,12 @@ func (c *pipeCase) WritePacketData(p []byte) error {
 		atomic.StoreInt32(&c.bad, 1)
 	}
 	if fail {
-		return errors.New("write:" + h)
+		// what a packet socket really answers — the device queue is full, the link is down, the socket is gone … — under
+		// a text that names the frame (a frame that fails, fails every time it is tried: a retry inside the writer must
+		// not swallow the error, and no kind of failure ends the stream for the frames behind it)
+		id := int(cp[1])<<24 | int(cp[2])<<16 | int(cp[3])<<8 | int(cp[4])
+		errnos := []syscall.Errno{syscall.ENOBUFS, syscall.ENETDOWN, syscall.EAGAIN, syscall.ENXIO, syscall.EBADF, syscall.ENODEV, syscall.EPERM}
+		return &writeFailure{text: "write:" + h, errno: errnos[id%len(errnos)]}
 	}
 	return nil
 }
@@ -597,3 +603,15 @@ func pipelineComponent(r *hx.Run) {
 		r.Case(pipeCancelClass(j), append(append([]string{"pipe"}, j...), obs)...)
 	}
 }
+
+// writeFailure is a failed write of the fake packet socket: an errno (errors.Is / errors.As see it) under a text that
+// names the frame.
+type writeFailure struct {
+	text  string
+	errno syscall.Errno
+}
+
+func (e *writeFailure) Error() string   { return e.text }
+func (e *writeFailure) Unwrap() error   { return e.errno }
+func (e *writeFailure) Timeout() bool   { return e.errno.Timeout() }
+func (e *writeFailure) Temporary() bool { return e.errno.Temporary() }
